@@ -79,10 +79,12 @@ class HistoryRun:
         self.dumps = []         # Verif.Dump after every request (index = request index)
         self.init_freq_abs = []
         self.sess_texts = {}
+        self.transport = "http"   # "ws": the six RPC methods travel over ONE WebSocket connection kept open for the whole history (as the Emacs client does)
 
     def run(self):
         wd = workdir("h")
         srv_ = None
+        ws = [None]
         try:
             d = make_dictionary(wd, [entry_line(e) for e in self.base["std"]], [entry_line(e) for e in self.base["anc"]], [entry_line(e) for e in self.base["tankan"]])
             ud = os.path.join(wd, "user")
@@ -115,6 +117,22 @@ class HistoryRun:
                         params["context"] = {"kind": rq.get("context", "Normal")}
                     return "GetCandidates", params
                 return "RegisterWord", {"kind": rq["wkind"], "reading": rq["reading"], "word": rq["word"]}
+            def rpc(method, params):
+                if self.transport != "ws":
+                    return srv_.call(method, params)
+                if ws[0] is None or ws[0][1] is not srv_:
+                    try:
+                        c_ = WsClient(srv_.port, timeout=20.0)
+                    except OSError as e_:
+                        return ("closed", str(e_))
+                    if not c_.ok:
+                        return ("closed", "websocket upgrade refused: " + c_.status)
+                    ws[0] = (c_, srv_)
+                out = ws[0][0].call(method, params)
+                if out[0] == "closed":
+                    ws[0][0].close()
+                    ws[0] = None              # the next request opens a new connection
+                return out
             pending = {}           # request index -> (status, result) answered as part of a JSON-RPC batch
             for qi, rq in enumerate(self.requests):
                 kind = rq["kind"]
@@ -129,7 +147,7 @@ class HistoryRun:
                         pending[j] = a
                 if kind in ("convert", "proper"):
                     ctx = rq.get("context", "Normal") if kind == "convert" else "Proper"
-                    st, r = pending[qi] if qi in pending else srv_.call(*wire(rq))
+                    st, r = pending[qi] if qi in pending else rpc(*wire(rq))
                     if st != "ok":
                         self.problems.append((f"conversion of {rq['input']!r} is not answered: {st} {r}", {"request": rq}))
                         self.events.append(({"t": "convert", "input": rq["input"], "ctx": ctx}, None))
@@ -143,12 +161,12 @@ class HistoryRun:
                         self.problems.append(("candidate ids are not 0..n-1", {"request": rq, "ids": ids}))
                     self.events.append(({"t": "convert", "input": rq["input"], "ctx": ctx}, {"sid": len(sids) - 1, "texts": [c["candidate"] for c in r["candidates"]]}))
                 elif kind == "tankan":
-                    st, r = srv_.call("GetTankanCandidates", {"input": rq["input"]})
+                    st, r = rpc("GetTankanCandidates", {"input": rq["input"]})
                     self.events.append(({"t": "tankan", "input": rq["input"]}, {"texts": [c["candidate"] for c in r["candidates"]]} if st == "ok" else None))
                     if st != "ok":
                         self.problems.append((f"tankan lookup of {rq['input']!r} is not answered: {st}", {"request": rq}))
                 elif kind == "alpha":
-                    st, r = srv_.call("GetAlphabeticCandidate", {"input": rq["input"]})
+                    st, r = rpc("GetAlphabeticCandidate", {"input": rq["input"]})
                     self.events.append(({"t": "alpha", "input": rq["input"]}, {"texts": [c["candidate"] for c in r["candidates"]]} if st == "ok" else None))
                     if st != "ok":
                         self.problems.append((f"alphabetic conversion of {rq['input']!r} is not answered: {st}", {"request": rq}))
@@ -156,7 +174,7 @@ class HistoryRun:
                     sid = sids.get(rq["session"]) if rq["session"] is not None else "00000000-0000-4000-8000-000000000000"
                     if "text" in rq and rq["text"] in self.sess_texts.get(rq["session"], []):
                         rq["cid"] = str(self.sess_texts[rq["session"]].index(rq["text"]))      # the candidate with this text, wherever the server lists it
-                    st, r = srv_.call("UpdateFrequency", {"session_id": sid if sid is not None else "no-such-session", "candidate_id": rq["cid"]})
+                    st, r = rpc("UpdateFrequency", {"session_id": sid if sid is not None else "no-such-session", "candidate_id": rq["cid"]})
                     ok, dmp = srv_.quiesce()
                     # the time stamp this confirmation used = the stamp of the count it raised (planted counts may carry stamps from the future)
                     prevf = {(json.dumps(f[0], sort_keys=True), f[1]): (f[2], f[3]) for f in ((self.dumps[-1] or {}).get("frequencies", []) if self.dumps else
@@ -170,7 +188,7 @@ class HistoryRun:
                     if not ok:
                         self.problems.append(("a learned compound is never applied to the dictionary (updater dead?)", {"request": rq, "dump": dmp}))
                 elif kind == "register":
-                    st, r = pending[qi] if qi in pending else srv_.call(*wire(rq))
+                    st, r = pending[qi] if qi in pending else rpc(*wire(rq))
                     ok, dmp = srv_.quiesce()
                     self.events.append(({"t": "register", "wkind": rq["wkind"], "reading": rq["reading"], "word": rq["word"]}, {} if st == "ok" else ("rejected" if st == "error" else ("failed" if st == "closed" else None))))
                     if st == "timeout":
@@ -239,6 +257,11 @@ class HistoryRun:
                     stw, ws = srv_.call("Verif.Words", {"readings": rds})
                     self.final["words"] = ws if stw == "ok" else None
         finally:
+            try:
+                if ws[0] is not None:
+                    ws[0][0].close()
+            except Exception:
+                pass
             if srv_ is not None:
                 srv_.stop()
             cleanup(wd)
@@ -246,8 +269,14 @@ class HistoryRun:
 
 
 def run_histories(items, threads=8):
+    def one(a):
+        i, it = a
+        hr = HistoryRun(*it)
+        if i % 3 == 2:
+            hr.transport = "ws"       # every third history talks over one long-lived WebSocket connection
+        return hr.run()
     with concurrent.futures.ThreadPoolExecutor(max_workers=threads) as ex:
-        return list(ex.map(lambda it: HistoryRun(*it).run(), items))
+        return list(ex.map(one, list(enumerate(items))))
 
 
 # ---------------------------------------------------------------- Coq rendering
